@@ -1,4 +1,5 @@
 """C06 - molecule assignment equals the ground-truth duplicate structure; exactly one primary per molecule.
+Extension (Model/C06x.v): pooling_method=0, every_fragment_as_molecule, order of the capacity test, two-iterator histories.
 
 K: simulated libraries with known truth -> in-memory pysam reads -> the REAL MoleculeIterator
 (check_eject_every=None) + Molecule.write_tags / Fragment.write_tags  vs  the Coq model (Model/C06.v).
@@ -214,6 +215,27 @@ def gen_truth_lib(rng, eject, big=False):
             'meta': {'truth_molecules': classes, 'eject': eject}}
 
 
+def gen_cap_lib(rng):
+    """one cell, one or two sites of one strand, 2-3 UMIs (some at distance 1), many PCR copies, cap 1..3, shuffled:
+    several molecules share a pool and the early ones fill up (the order of the capacity test against the match test)"""
+    cls = rng.choice([1, 1, 2])
+    cfg = {'cls': cls, 'mol': None, 'd': rng.choice([0, 0, 1]), 'r': 0, 'cap': rng.choice([1, 1, 2, 2, 3]),
+           'yinv': True, 'yover': rng.random() < 0.8, 'pool': rng.choice([0, 1])}
+    base = rand_seq(rng, 4)
+    umis = [base, mutate(rng, base, rng.choice([1, 2, 3])), rand_seq(rng, 4)][:rng.randint(2, 3)]
+    reads, n = [], 0
+    rev = rng.random() < 0.5
+    for pos in [1000, 1037][:rng.randint(1, 2)]:
+        for u in umis:
+            for _ in range(rng.randint(1, 5)):
+                r1 = r1_part(cls, pos, rev, 0, False, True, rng)
+                reads.append({'name': 'q%d' % n, 'sample': 'CELL_0', 'umi': u, 'contig': 'chr1', 'r1': r1, 'r2': None,
+                              'dup': rng.random() < 0.3, 'qcfail': False, 'rc': None, 'mx': None})
+                n += 1
+    rng.shuffle(reads)
+    return {'cfg': cfg, 'reads': reads, 'retag': False, 'bam': False, 'meta': {'cap_stream': True}}
+
+
 def truth_violations(lib, res):
     """C06_exact / C06_one_primary / C06_tags instantiated with the GENERATOR's keys (not the implementation's accessors)"""
     out = []
@@ -320,8 +342,18 @@ def model_input(lib, frags):
                    f['site'] if f['site'] is not None else 0, f['end'] if f['end'] is not None else 0,
                    [ord(c) for c in (f['umi'] or '')], 1 if f['valid'] else 0, 1 if f['dup'] else 0])
     c = [cfg['cls'], cfg['d'], cfg['r'], ([] if cfg['cap'] is None else [cfg['cap']]),
-         1 if cfg['yinv'] else 0, 1 if cfg['yover'] else 0, 1]
+         1 if cfg['yinv'] else 0, 1 if cfg['yover'] else 0, 1,
+         1 if cfg.get('pool', 1) == 0 else 0, 1 if cfg.get('efm') else 0]
     return [c, fl]
+
+
+def is_ext(cfg):
+    return cfg.get('pool', 1) == 0 or bool(cfg.get('efm'))
+
+
+def unordered(mols):
+    """the statements about pooling_method=0 / every_fragment_as_molecule speak of the SET of molecules"""
+    return sorted(mols, key=lambda m: (str(m[1][0][0]) if m[1] else '', repr(m))) if isinstance(mols, list) else mols
 
 
 def canon_model(out, frags, with_overflow=True):
@@ -410,6 +442,22 @@ def py_accepts(cfg, f, p):
     return ueq
 
 
+def py_feq(cfg, g, f):
+    """transcription of Model/C06x.v feq (member g .__eq__ incoming f)"""
+    d = cfg['d']
+    ueq = umi_close(d, g['umi'], f['umi'])
+    if cfg['cls'] == 1 or (cfg['cls'] == 2 and cfg['r'] == 0):
+        return (g['strand'], str(g['contig']), g['site'], str(g['sample'])) == \
+               (f['strand'], str(f['contig']), f['site'], str(f['sample'])) and ueq
+    if cfg['cls'] == 2:
+        if (g['strand'], str(g['contig']), str(g['sample'])) != (f['strand'], str(f['contig']), str(f['sample'])):
+            return False
+        return abs(g['site'] - f['site']) <= cfg['r'] and ueq
+    if (str(g['sample']), g['strand'], str(g['contig'])) != (str(f['sample']), f['strand'], str(f['contig'])):
+        return False
+    return min(abs(g['site'] - f['site']), abs(g['end'] - f['end'])) <= cfg['r'] and ueq
+
+
 def spec_violations(lib, res):
     """list of (key, text).  keys are stable identities of the violated clause."""
     cfg = lib['cfg']
@@ -424,6 +472,8 @@ def spec_violations(lib, res):
         return out
     frags = {f['name']: f for f in res['frags']}
     order = {f['name']: i for i, f in enumerate(res['frags'])}
+    pool0 = cfg.get('pool', 1) == 0
+    efm = bool(cfg.get('efm'))
     for which in ('pass1', 'pass2'):
         mols = res.get(which)
         if mols is None:
@@ -457,6 +507,10 @@ def spec_violations(lib, res):
                 tf_total += m[0][4]
             if any(x[5] != (not frags[x[0]]['valid']) for x in m):
                 out.append(('tags:qcfail', '%s: qcfail bits %r do not mirror validity' % (which, [(x[0], x[5]) for x in m])))
+            if efm and (n != 1 or m[0][1] != 0 or m[0][2] is not False or m[0][3] != 1 or m[0][4] != 1):
+                # C06_efm / C06_efm_tags: every fragment its own molecule, RC 0, not duplicate, af = TF = 1
+                out.append(('efm', '%s: every_fragment_as_molecule: molecule %r has (name, RC, duplicate, af, TF, qcfail) %r'
+                            % (which, [x[0] for x in m], m)))
             if n < 2:
                 continue
             # soundness (C06_sound): arrival order inside the molecule, shared cell/strand/contig, site, UMI link
@@ -472,6 +526,14 @@ def spec_violations(lib, res):
                     out.append(('sound:site', '%s: molecule %r mixes sites %r' % (which, [x[0] for x in m], [f['site'] for f in fs])))
             for i in range(1, n):
                 pre, f = fs[:i], fs[i]
+                if pool0:
+                    # C06_pool0_sound: accepted by SOME earlier member (its UMI within d, its site within the radius)
+                    if not any(py_feq(cfg, g, f) for g in pre):
+                        out.append(('sound0:link', '%s: pooling_method=0: %s (UMI %s, site %r) joined a molecule none of whose '
+                                    'members %r accepts it (distance allowed %d, radius %d)'
+                                    % (which, f['name'], f['umi'], f['site'], [(g['name'], g['umi'], g['site']) for g in pre],
+                                       cfg['d'], cfg['r'])))
+                    continue
                 if not umi_close(cfg['d'], f['umi'], most_common([g['umi'] for g in pre])):
                     out.append(('sound:umi', '%s: %s (UMI %s) joined a molecule whose representative UMI was %s (distance allowed %d)'
                                 % (which, f['name'], f['umi'], most_common([g['umi'] for g in pre]), cfg['d'])))
@@ -495,7 +557,7 @@ def spec_violations(lib, res):
                     out.append(('cap', '%s: molecule %r has %d fragments, max_associated_fragments = %d'
                                 % (which, [x[0] for x in m], len(m), cfg['cap'])))
         # maximality (C06_greedy), evaluated without cap (no overflow fragments to account for)
-        if cfg['cap'] is None:
+        if cfg['cap'] is None and not pool0 and not efm:
             norm = [[frags[x[0]] for x in m] for over, m in cm if all(frags[x[0]]['valid'] for x in m)]
             bykey = {}
             for fs in norm:
@@ -511,10 +573,20 @@ def spec_violations(lib, res):
                                         'fragment of the other at every moment (UMIs %r / %r, sites %r / %r, distance %d, radius %d)'
                                         % (which, [g['name'] for g in a], [g['name'] for g in b], [g['umi'] for g in a],
                                            [g['umi'] for g in b], [g['site'] for g in a], [g['site'] for g in b], cfg['d'], cfg['r'])))
+        # overflow fragments (C06_overflow_singletons): one valid fragment each; as many as the molecules count in TF
+        n_over = sum(1 for over, m in cm if over is True)
+        for over, m in (cm if which == 'pass1' else []):
+            if over is True and (len(m) != 1 or not frags[m[0][0]]['valid'] or m[0][4] != 1):
+                out.append(('overflow', '%s: overflow molecule %r is not one valid fragment with TF 1' % (which, m)))
+        refused = sum(m[0][4] - len(m) for over, m in cm if over is not True and isinstance(m[0][4], int)
+                      and all(frags[x[0]]['valid'] for x in m))
+        if which == 'pass1' and not out and ((cfg['yover'] and n_over != refused) or (not cfg['yover'] and n_over != 0)):
+            out.append(('overflow', '%s: %d molecules are marked overflow, the assigned molecules count %d refused fragments '
+                        'in TF (yield_overflow=%r)' % (which, n_over, refused, cfg['yover'])))
         if tf_total != valid_total and not out:
             out.append(('tags:TF_total', '%s: TF summed over the molecules = %d, valid fragments = %d' % (which, tf_total, valid_total)))
         # exactness (C06_exact): d = 0, exact site classes, no cap
-        if cfg['d'] == 0 and cfg['cap'] is None and (cfg['cls'] == 1 or (cfg['cls'] == 2 and cfg['r'] == 0)):
+        if cfg['d'] == 0 and cfg['cap'] is None and not efm and (cfg['cls'] == 1 or (cfg['cls'] == 2 and cfg['r'] == 0)):
             cl = {}
             for f in res['frags']:
                 if f['valid']:
@@ -526,7 +598,7 @@ def spec_violations(lib, res):
                 out.append(('exact', '%s: with distance 0 the molecules are not the classes of identical (cell, strand, contig, site, UMI); '
                             'molecules that are no class: %r' % (which, diff)))
         # exactness with a cap (C06_exact_cap): first k of every class = the molecule, TF = class size
-        if cfg['d'] == 0 and cfg['cap'] is not None and cfg['cap'] >= 1 and (cfg['cls'] == 1 or (cfg['cls'] == 2 and cfg['r'] == 0)):
+        if cfg['d'] == 0 and cfg['cap'] is not None and cfg['cap'] >= 1 and not efm and (cfg['cls'] == 1 or (cfg['cls'] == 2 and cfg['r'] == 0)):
             cl = {}
             for f in res['frags']:
                 if f['valid']:
@@ -539,6 +611,13 @@ def spec_violations(lib, res):
                                 % (which, v, cfg['cap'], v[:cfg['cap']], len(v), m)))
                 elif cfg['yover'] and any((x,) not in bymol for x in v[cfg['cap']:]):
                     out.append(('exact_cap', '%s: class %r (cap %d): the fragments beyond the cap are not singleton molecules' % (which, v, cfg['cap'])))
+    if isinstance(res.get('other'), list) and cfg['d'] == 0 and not efm and (cfg['cls'] == 1 or (cfg['cls'] == 2 and cfg['r'] == 0)):
+        # C06_pool_equiv: distance 0, exact sites: pooling 0 and pooling 1 give the same molecules (any cap, any order)
+        a, b = unordered(canon_impl_mols(res['pass1'])), unordered(canon_impl_mols(res['other']))
+        if a != b:
+            d_ = [(x, y) for x, y in zip(a, b) if x != y][:2]
+            out.append(('pool_equiv', 'distance 0, exact sites: pooling_method %d and %d give different molecules; first differing %r'
+                        % (cfg.get('pool', 1), 1 - cfg.get('pool', 1), d_)))
     if res.get('pass2') is not None and canon_impl_mols(res['pass2']) != canon_impl_mols(res['pass1']):
         a, b = canon_impl_mols(res['pass1']), canon_impl_mols(res['pass2'])
         d = [(x, y) for x, y in zip(a, b) if x != y][:2]
@@ -559,8 +638,17 @@ class Prop(fw.PropBase):
         'Fragment accessors (sample, strand, site_location / span, umi, is_valid(), match_hash); the site geometry is C09\'s subject',
         'modelled not verified: pysam AlignedSegment flag/tag storage, collections.Counter / defaultdict insertion order, '
         'Python reflected __eq__ dispatch (Molecule has no __eq__)',
-        'the model is the NO-ejection machine (check_eject_every=None, pooling_method=1); independence of the ejection '
-        'schedule is C07; pooling_method=0, allele clustering, every_fragment_as_molecule are outside the model',
+        'the model is the NO-ejection machine (check_eject_every=None) for pooling_method=1 (Model/C06.v) and for '
+        'pooling_method=0 / every_fragment_as_molecule (Model/C06x.v); independence of the ejection schedule is C07; '
+        'allele clustering is outside the model; two-iterator histories (different umi_hamming_distance / pooling / cap, '
+        'advancing interleaved in one process) are tied by K only: each iterator is compared with the model of its own settings',
+        'Model/C06x.v feq / accepts0 / step0 (member-by-member comparison of add_fragment(use_hash=False), flat buffer, '
+        'every_fragment_as_molecule branch) are hand-written and tied by K; T regenerates only the use_hash=False decision of '
+        'Molecule.add_fragment (g_add_decision0) and the use_hash keyword per pooling branch of the iterator (g_pool_use_hash; a '
+        'restructured read loop falls back to the hand-held value, recorded under `generated`); offer_h / assign_h (capacity test '
+        'before the match test) is NOT the code and only serves the refutation C06_cap_hoisted_refuted',
+        'the two-iterator histories run each iterator in its own thread with a turn token (the source generators hand over after '
+        'every read pair); CPython threads + pysam objects per thread are trusted to interleave at read-pair granularity',
         'tools/c06.py spec_violations: python transcription of the theorem statements used only to find a failing input',
     ]
     ASSUMPTIONS = ['every read carries SM and RX tags (the tagger sets them from the read name; C04/C05)',
@@ -610,6 +698,56 @@ class Prop(fw.PropBase):
             lib['retag'] = False
             libs.append(lib)
         libs += exhaustive_libs(self.tier)
+        libs += self.extension_libs()
+        return libs
+
+    def extension_libs(self):
+        """streams for Model/C06x.v (generated AFTER the streams above, which stay as they were): pooling_method=0,
+        every_fragment_as_molecule, the cap stream, two-iterator histories, exhaustive small scopes with pooling 0"""
+        quick = self.tier == 'quick'
+        libs = []
+        for k in range(160 if quick else 2500):
+            lib = gen_lib(self.rng, big=(k % 16 == 15))
+            lib['cfg']['pool'] = 0
+            lib['retag'] = False
+            lib['both'] = True
+            libs.append(lib)
+        for _ in range(40 if quick else 600):
+            lib = gen_truth_lib(self.rng, None, big=False)
+            lib['cfg']['pool'] = 0
+            libs.append(lib)
+        for _ in range(40 if quick else 600):
+            lib = gen_lib(self.rng, big=False)
+            lib['cfg']['efm'] = True
+            lib['cfg']['pool'] = self.rng.choice([0, 1])
+            lib['retag'] = False
+            libs.append(lib)
+        for _ in range(80 if quick else 1200):
+            libs.append(dict(gen_cap_lib(self.rng), both=True))
+        # two iterators with different settings advancing interleaved in one process
+        for _ in range(40 if quick else 600):
+            lib = gen_lib(self.rng, big=False)
+            ds = self.rng.sample([0, 1, 2], 2)
+            if self.rng.random() < 0.6:
+                ds = self.rng.choice([[2, 1], [1, 2]])
+            lib['duo'] = [{'d': ds[0], 'pool': self.rng.choice([0, 1, 1]), 'cap': self.rng.choice([None, None, 2])},
+                          {'d': ds[1], 'pool': self.rng.choice([0, 1, 1]), 'cap': self.rng.choice([None, None, 2])}]
+            lib['schedule'] = [self.rng.randrange(2) for _ in range(self.rng.randint(2, 7))]
+            lib['retag'] = False
+            libs.append(lib)
+        L = 4 if quick else 5
+
+        def base(cls, d, r, cap):
+            return {'cls': cls, 'mol': None, 'd': d, 'r': r, 'cap': cap, 'yinv': True, 'yover': True, 'pool': 0}
+        for d, cap in ((0, None), (1, None), (1, 2)) if quick else ((0, None), (0, 2), (1, None), (1, 2)):
+            for n in range(1, L + 1):
+                for seq in itertools.product(range(len(NLA_TYPES)), repeat=n):
+                    libs.append(dict(seq_lib(base(1, d, 0, cap), NLA_TYPES, seq, 'nla-pool0'), both=(d == 0)))
+        Lc = 3 if quick else 4
+        for d, r in ((0, 2),) if quick else ((0, 2), (1, 2)):
+            for n in range(1, Lc + 1):
+                for seq in itertools.product(range(len(CHIC_TYPES)), repeat=n):
+                    libs.append(seq_lib(base(2, d, r, None), CHIC_TYPES, seq, 'chic-pool0'))
         return libs
 
     def run_impl_libs(self, libs):
@@ -634,6 +772,13 @@ class Prop(fw.PropBase):
                     libs.append({'cfg': dict(l['cfg'], d=sw['d'], cap=sw['cap']), 'reads': l['reads'], 'retag': False, 'bam': False,
                                  'history': {'sweep': l['sweep'], 'index': k}, 'meta': {'history_of': len(l['sweep'])}})
                     res.append(r['sweep'][k])
+        for l, r in list(zip(libs, res)):
+            if l.get('duo') and not r.get('error'):
+                for k, sw in enumerate(l['duo']):
+                    libs.append({'cfg': dict(l['cfg'], **sw), 'reads': l['reads'], 'retag': False, 'bam': False,
+                                 'history': {'duo': l['duo'], 'schedule': l.get('schedule'), 'index': k},
+                                 'meta': {'history_of': 2}})
+                    res.append(r['duo'][k])
         self.libs, self.res = libs, res
         cov = self.cov
         nfr = sum(len(l['reads']) for l in libs)
@@ -641,15 +786,26 @@ class Prop(fw.PropBase):
         nontrivial = set()
         stats = {'libraries': len(libs), 'fragments': nfr, 'with_input_duplicate_flags': 0, 'with_invalid_fragments': 0,
                  'with_cap': 0, 'overflow_events': 0, 'radius_gt0': 0, 'retag_histories': 0, 'bam_round_trips': 0,
-                 'implementation_raised': 0, 'construction_history_iterators': 0, 'plain_fragments_at_position_0': 0, 'truth_libraries': 0, 'truth_with_real_ejection': 0, 'truth_soft_clipped_reverse_R1': 0, 'molecules': 0, 'molecules_ge2': 0, 'strand_or_contig_twins': 0, 'umi_tie_events': 0}
+                 'implementation_raised': 0, 'construction_history_iterators': 0, 'plain_fragments_at_position_0': 0, 'truth_libraries': 0, 'truth_with_real_ejection': 0, 'truth_soft_clipped_reverse_R1': 0, 'molecules': 0, 'molecules_ge2': 0, 'strand_or_contig_twins': 0, 'umi_tie_events': 0,
+                 'pooling_method_0': 0, 'every_fragment_as_molecule': 0, 'two_iterator_history_iterators': 0,
+                 'pool0_overflow_events': 0, 'pool0_vs_pool1_partitions_differ': 0, 'pool0_vs_pool1_compared': 0}
         for l, r in zip(libs, res):
             c = l['cfg']
+            stats['pooling_method_0'] += c.get('pool', 1) == 0
+            stats['every_fragment_as_molecule'] += bool(c.get('efm'))
+            stats['two_iterator_history_iterators'] += bool(l.get('history') and l['history'].get('duo'))
+            if isinstance(r.get('other'), list) and not r.get('error'):
+                stats['pool0_vs_pool1_compared'] += 1
+                stats['pool0_vs_pool1_partitions_differ'] += sorted(sorted(f['name'] for f in m) for m in r['pass1']) != \
+                    sorted(sorted(f['name'] for f in m) for m in r['other'])
+            if c.get('pool', 1) == 0 and not r.get('error'):
+                stats['pool0_overflow_events'] += sum(1 for m in r['pass1'] if any(any(f['overflow']) for f in m))
             hist_cls[CLS[c['cls']]] = hist_cls.get(CLS[c['cls']], 0) + 1
             hist_d[str(c['d'])] = hist_d.get(str(c['d']), 0) + 1
             b = min(len(l['reads']) // 10 * 10, 200)
             hist_size['%d-%d' % (b, b + 9)] = hist_size.get('%d-%d' % (b, b + 9), 0) + 1
             stats['with_cap'] += c['cap'] is not None
-            stats['construction_history_iterators'] += bool(l.get('history'))
+            stats['construction_history_iterators'] += bool(l.get('history') and l['history'].get('sweep'))
             if c['cls'] == 0:
                 stats['plain_fragments_at_position_0'] += sum(1 for s_ in l['reads'] if s_['r1']['start'] == 0 or (s_['r2'] and s_['r2']['start'] == 0))
             stats['truth_libraries'] += bool(l.get('truth'))
@@ -682,6 +838,12 @@ class Prop(fw.PropBase):
             if len(big) >= 1 and len(r['pass1']) >= 2:
                 nontrivial.add(fw.canon_hash(model_input(l, r['frags'])))
         sample_idx = [i for i in (0, len(libs) // 3, len(libs) - 1) if not res[i].get('error')]
+        for pred in (lambda l: l['cfg'].get('pool', 1) == 0 and l['cfg'].get('cap') and len(l['reads']) > 4,
+                     lambda l: bool(l['cfg'].get('efm')) and len(l['reads']) > 2,
+                     lambda l: bool(l.get('history') and l['history'].get('duo'))):
+            k = next((i for i, l in enumerate(libs) if pred(l) and not res[i].get('error')), None)
+            if k is not None:
+                sample_idx.append(k)
         cov.update({
             'evaluations': len(libs) + stats['retag_histories'] + stats['bam_round_trips'],
             'distinct_nontrivial': len(nontrivial),
@@ -694,12 +856,19 @@ class Prop(fw.PropBase):
                     'molecules; distinct by hash of the abstract library (cfg + abstract fragments).  TRUTH stream: libraries whose true '
                     '(cell, contig, cut site, strand, UMI) per fragment is chosen by the generator (soft clips at the read start on both '
                     'strands, R1 lengths, R2 ends, long reverse inserts, input flags), distance 0 / radius 0: molecules of the real iterator '
-                    'must be exactly the truth classes with one primary each - without ejection and with check_eject_every 0/2/3, cache 1000',
+                    'must be exactly the truth classes with one primary each - without ejection and with check_eject_every 0/2/3, cache 1000.  '
+                    'EXTENSION streams (Model/C06x.v): the same generators with pooling_method=0 (each such library also through pooling 1: '
+                    'C06_pool_equiv evaluated on the two implementation outputs when distance 0 / exact sites, difference counted otherwise), '
+                    'every_fragment_as_molecule, a cap stream (one pool, 2-3 UMIs, many copies, cap 1..3, both poolings), histories of TWO '
+                    'iterators with different umi_hamming_distance / pooling / cap advancing interleaved fragment by fragment in one process '
+                    '(threads handing over a turn token), each compared with the model of its own settings; exhaustive NLA / CHIC scopes with pooling 0',
             'stats': stats, 'fragment_class_histogram': hist_cls, 'umi_distance_histogram': hist_d, 'library_size_histogram': hist_size,
             'samples': [{'cfg': libs[i]['cfg'], 'reads': libs[i]['reads'][:6], 'n_reads': len(libs[i]['reads']),
-                         'impl_molecules': canon_impl(res[i])[:4]} for i in sample_idx],
+                         'impl_molecules': canon_impl(res[i])[:4],
+                         **({'history': libs[i]['history']} if libs[i].get('history') else {})} for i in sample_idx],
             'exhaustive': False,
-            'exhaustive_scopes': 'all fragment-type sequences of length <= %d (NLA alphabet 6) / <= %d (CHIC alphabet 8, plain alphabet 6)'
+            'exhaustive_scopes': 'all fragment-type sequences of length <= %d (NLA alphabet 6) / <= %d (CHIC alphabet 8, plain alphabet 6); '
+                                 'the NLA and CHIC scopes again with pooling_method=0'
                                  % ((4, 3) if self.tier == 'quick' else (5, 4)),
         })
         # the theorem statements (python transcription) evaluated on the implementation's output, every library
@@ -737,6 +906,8 @@ class Prop(fw.PropBase):
                 continue        # real ejection schedule: compared with the generator's truth only (spec_violations)
             exp = canon_model(mo[i], r['frags'])
             got = canon_impl(r)
+            if is_ext(l['cfg']):
+                exp, got = unordered(exp), unordered(got)
             if exp != got:
                 a, b = first_diff(exp, got)
                 dis.append({'lib': i, 'what': 'molecules/tags differ (first differing molecule shown)', 'model': a, 'impl': b})
@@ -779,7 +950,10 @@ class Prop(fw.PropBase):
         cov['precondition_hit_rate'] = round(sum(1 for p in pre if p == 1) / max(1, len(pre)), 4)
         cov['disagreements'] = len(dis)
         small = sorted(range(len(libs)), key=lambda i: (len(inputs[i][1]) < 3, len(inputs[i][1]) > 14, i))[:100]
-        ok, nm, log = fw.vm_crosscheck('C06', 0, [(inputs[i], mo[i]) for i in small])
+        ext = [i for i in small if is_ext(libs[i]['cfg'])]
+        small = small[:100 - min(40, len(ext))] + [i for i in sorted(range(len(libs)), key=lambda i: (not is_ext(libs[i]['cfg']), len(inputs[i][1]) < 3, len(inputs[i][1]) > 14, i))[:40] if i not in small[:100 - min(40, len(ext))]]
+        small = small[:100]
+        ok, nm, log = fw.vm_crosscheck('C06', 0, [(inputs[i], mo[i]) for i in small], run_name='run_C06x', require='Model.C06x')
         cov['vm_compute_crosscheck'] = {'cases': len(small), 'mismatches': nm}
         if not ok:
             raise fw.Broken('extraction', 'vm_compute and extracted model disagree: ' + log[-800:])
@@ -806,10 +980,10 @@ class Prop(fw.PropBase):
         for key, (lib, text) in sorted(best.items()):
             lib, text = self.shrink(lib, key, text)
             self.witnesses.append({'key': key, 'what': text,
-                                   'input': {k_: lib[k_] for k_ in ('cfg', 'reads', 'retag', 'truth', 'history') if k_ in lib},
+                                   'input': {k_: lib[k_] for k_ in ('cfg', 'reads', 'retag', 'truth', 'history', 'both') if k_ in lib},
                                    'expected': 'see Props/C06.v: ' + {'tags': 'C06_one_primary', 'sound': 'C06_sound', 'exact': 'C06_exact',
                                                                        'partition': 'C06_partition', 'retag': 'C06_retag_idempotent',
-                                                                       'error': 'C06_run_total', 'truth': 'C06_exact / C06_one_primary / C06_tags with the generator\'s truth keys', 'cap': 'C06_cap', 'greedy': 'C06_greedy', 'exact_cap': 'C06_exact_cap'}.get(key.split(':')[0], 'C06')})
+                                                                       'error': 'C06_run_total', 'truth': 'C06_exact / C06_one_primary / C06_tags with the generator\'s truth keys', 'cap': 'C06_cap', 'greedy': 'C06_greedy', 'exact_cap': 'C06_exact_cap', 'efm': 'C06_efm / C06_efm_tags', 'pool_equiv': 'C06_pool_equiv', 'overflow': 'C06_overflow_singletons', 'sound0': 'C06_pool0_sound', 'duo': 'two iterators in one process: each must behave as if it ran alone (per-iterator umi_hamming_distance)'}.get(key.split(':')[0], 'C06')})
 
     def shrink(self, lib, key, text):
         """delta debugging on the read list, batches of candidates through the real implementation"""
